@@ -148,6 +148,7 @@ func runC02(p *core.Program, r *core.Report) {
 // a decoded map with more entries than the initial threshold is only equal to what was written if
 // growth, re-bucketing and lookup agree.
 func c02Backing(p *core.Program, r *core.Report) {
+	defer setLinkCanon(nil)
 	hmapProg = p
 	modes := hmapModes(p)
 	seen := map[*types.Named]bool{}
@@ -177,6 +178,7 @@ func c02Backing(p *core.Program, r *core.Report) {
 				continue
 			}
 			seen[nt] = true
+			setLinkCanon(nt)
 			h := &hmapType{p: p, r: r, pre: "C02.backing", t: nt, name: "util/hmap." + nt.Obj().Name(), linked: true, hasMax: structHasField(nt, "max"), modes: modes}
 			h.checkInsertHelpers()
 			h.checkRemove()
